@@ -92,9 +92,11 @@ SvgRefSub(v) == LET u == SaxUnescape(v) IN IF \E i \in 1..Len(u) : u[i] = 40 THE
 \* re.search(r'^\s*[^#\s].*', v): the first non-whitespace character exists and is not '#'
 NonLocalRef(v) == LET k == SkipWs(v, 1) IN k <= Len(v) /\ v[k] # 35
 
-\* ve: assume that urlsplit raises ValueError wherever the model cannot tell (UriMayAlsoDrop): the attribute is deleted
+\* ve: the code is known not to have raised KeyError, so wherever the model says "raise" but cannot tell whether urlsplit
+\* raised ValueError first (UriMayAlsoDrop), it did: that attribute was deleted by the except clause
 UriV(x, L, D, ve) == IF AttrKey(x) \in L.uri
-                     THEN (IF ve /\ UriMayAlsoDrop(x[3]) THEN "drop" ELSE UriVerdict(x[3], L.prot, L.ct, D))
+                     THEN (LET v == UriVerdict(x[3], L.prot, L.ct, D) IN
+                           IF ve /\ v = "raise" /\ UriMayAlsoDrop(x[3]) THEN "drop" ELSE v)
                      ELSE "keep"
 MapAttrs(a, F(_)) == IF a = <<>> THEN <<>> ELSE [i \in 1..Len(a) |-> F(a[i])]
 Step1(a, L)    == SelectSeq(a, LAMBDA x : AttrKey(x) \in L.at)                 \* remove forbidden attributes
